@@ -19,7 +19,7 @@ import (
 //   silent variants    = behaviour-preserving edits (selftest/silent/*.diff): the check must exit 0.
 //
 // Every variant is analysed by a separate process on a scratch copy of the current /repo working
-// tree under $TMPDIR (removed right afterwards, at most 4 at a time). A patch that no longer applies
+// tree under $TMPDIR (removed right afterwards, at most 8 at a time). A patch that no longer applies
 // is reported as skipped. The outcome is evidence about the checker; it never changes the exit code.
 
 func runSelfTest(pd *PropDef, repo, out string) []map[string]interface{} {
@@ -61,7 +61,7 @@ func runSelfTest(pd *PropDef, repo, out string) []map[string]interface{} {
 	}
 	exe, _ := os.Executable()
 	results := make([]map[string]interface{}, len(vars))
-	sem := make(chan struct{}, 4)
+	sem := make(chan struct{}, 8)
 	var wg sync.WaitGroup
 	for i, v := range vars {
 		wg.Add(1)
